@@ -12,7 +12,7 @@ install_oracle()
 FUNCTIONS_ENCODED = ['pgpy.pgp.PGPSignature.hashdata (CanonicalDocument branch)', 'pgpy.pgp.PGPKey.sign (cleartext message -> text signature)',
                      'pgpy.pgp.PGPMessage.__str__ (Hash: header)', 'pgpy.pgp.PGPMessage.new (cleartext)', 'pgpy.pgp.PGPMessage.__or__']
 STUBS = ['EdDSAPriv.sign -> records the octets it is asked to sign', 'hashlib (left-16) -> recording stand-in']
-OUTSIDE = ['dash-escaping / unescaping and the cleartext branch of the armor regular expression, i.e. the written-out-and-read-back round trip of the text: '
+OUTSIDE = ['dash-escaping / unescaping and the cleartext branch of the armor regular expression on SYMBOLIC text (O11.3 only enumerates concrete texts over a 7-letter alphabet): '
            'regular expressions on symbolic text are outside this tool (CrossHair\'s re model returned a non-reproducing counterexample for dash_unescape(dash_escape("--")), probe P14)',
            'verification by an independent implementation other than the reference canonicalisation below']
 ASSUMPTIONS = ['RFC 4880 7.1: signed text has <CR><LF> line endings and no trailing SP/HT on any line']
@@ -144,6 +144,53 @@ def cleartext_sign(text: str, n: int, h0: int, h1: int) -> bool:
     return lines[1] == want_hdr and lines[2] == '' and lines[3] == text
 
 
-SANITY = ['signed_text(b"a\\nb")', 'signed_text(b"a\\r\\nb")', 'signed_text(b"\\n\\n")', 'signed_text(b"a\\rb")', 'signed_text(b" a\\tb")', 'signed_text(b"")',
+ALPHA = ('a', '-', ' ', '\n', '\r', '\t', 'F')
+
+
+@ob('O11.3', 'written-out-and-read-back round trip of a cleartext-signed message over a small adversarial alphabet: same text, signature still verifies, '
+             'dash-escaping applied and removed exactly once (each path is a concrete text: the regular expressions are executed natively, the engine only enumerates the alphabet)',
+    'text of 0..3 (quick) / 0..4 (thorough) characters, each chosen by symbolic index from {a, -, space, LF, CR, TAB, F}; texts with a blank before a line end are excluded '
+    '(finding KF-C11-trailing-blanks); one signer', cond_timeout={'q': 280, 't': 1200},
+    partitions={'q': [['n <= 2']] + [['n == 3', 'c0 == %d' % k] for k in range(7)], 't': [['n <= 2']] + [['n == 3', 'c0 == %d' % k] for k in range(7)] + [['n == 4', 'c0 == %d' % k, 'c1 == %d' % j] for k in range(7) for j in range(7)]})
+def cleartext_roundtrip(n: int, c0: int, c1: int, c2: int, c3: int) -> bool:
+    """
+    pre: 0 <= n <= 4
+    pre: 0 <= c0 < 7 and 0 <= c1 < 7 and 0 <= c2 < 7 and 0 <= c3 < 7
+    pre: n >= 1 or c0 == 0
+    pre: n >= 2 or c1 == 0
+    pre: n >= 3 or c2 == 0
+    pre: n >= 4 or c3 == 0
+    post: _
+    """
+    chars = []
+    for j, sym in enumerate((c0, c1, c2, c3)):
+        if j < n:
+            for k in range(7):
+                if sym == k:
+                    chars.append(ALPHA[k])
+    text = ''.join(chars)
+    if has_trailing_blank(text.encode()):
+        return True
+    msg = PGPMessage.new(text, cleartext=True)
+    from harness import sigfix
+    sigfix.Oracle.multi = True
+    sigfix.Oracle.pairs = []
+    try:
+        msg |= KEY.sign(msg, created=T0, hash=HashAlgorithm.SHA256)
+        out = str(msg)
+        # every line of the framed text that starts with a dash must have been escaped
+        body = out.split('-----BEGIN PGP SIGNATURE-----')[0]
+        for ln in body.split('\n')[3:]:
+            if ln.startswith('-') and not ln.startswith('- '):
+                return False
+        rx = PGPMessage.from_blob(out)
+        if rx.message != text and rx.message != text.replace('\r\n', '\n'):
+            return False
+        return bool(PUB.verify(rx))
+    finally:
+        sigfix.Oracle.multi = False
+
+
+SANITY = ['cleartext_roundtrip(3, 0, 3, 0, 0)', 'cleartext_roundtrip(4, 1, 1, 3, 1)', 'cleartext_roundtrip(2, 6, 0, 0, 0)', 'cleartext_roundtrip(0, 0, 0, 0, 0)', 'signed_text(b"a\\nb")', 'signed_text(b"a\\r\\nb")', 'signed_text(b"\\n\\n")', 'signed_text(b"a\\rb")', 'signed_text(b" a\\tb")', 'signed_text(b"")',
           'cleartext_sign("abc", 1, 1, 0)', 'cleartext_sign("", 2, 0, 0)', 'cleartext_sign("x", 2, 3, 1)',
           'rfc71(b"a \\t\\nb ") == b"a\\r\\nb"', 'has_trailing_blank(b"a \\n") and has_trailing_blank(b" ") and not has_trailing_blank(b" a") and has_trailing_blank(b"a \\r\\n")']
